@@ -4,6 +4,7 @@ package main
 // calls replaced by contracts (or inlined when contract-less and loop-free).
 
 import (
+	"regexp"
 	"fmt"
 	"go/constant"
 	"go/token"
@@ -765,6 +766,13 @@ func (x *Exec) verifyFunc(fn *ssa.Function, ct *Contract) {
 		fc.params[fv.Name()] = sv
 		_ = i
 	}
+	// ghost parameters (bound by the caller from its own lets / parameters of the same name)
+	for _, g := range ct.Ghost {
+		so := map[string]Sort{"int": SInt, "bool": SBool, "str": SStr, "f64": SF64, "val": SVal}[g.Type]
+		n := x.fresh("ghost_" + sanitize(g.Name))
+		p.declare(n, so.smt())
+		fc.params[g.Name] = term(n, so)
+	}
 	// unique local names from DebugRefs
 	seen := map[string]map[ssa.Value]bool{}
 	for _, b := range fn.Blocks {
@@ -1520,6 +1528,18 @@ func (x *Exec) exitNormal(p *Path, results []SV, in ssa.Instruction) {
 			}
 		}
 	}
+	for _, ac := range ct.Appends {
+		for _, c := range appendsExitClauses(ac, fn) {
+			extra = append(extra, c)
+		}
+	}
+	if len(ct.Appends) > 0 && len(ct.Each)+len(ct.Others) == 0 {
+		for _, rq := range ct.Requires {
+			if !mentionsAny(rq.E, fn.Params) {
+				extra = append(extra, &Clause{Label: rq.Label + "-preserved", Props: rq.Props, E: rq.E})
+			}
+		}
+	}
 	for _, en := range append(append(append([]*Clause(nil), ct.Ensures...), ct.Returns...), extra...) {
 		s, err := env.evalBool(en.E)
 		if err != nil {
@@ -1821,4 +1841,35 @@ func mentionsAny(e Expr, params []*ssa.Parameter) bool {
 	}
 	walk(e)
 	return found
+}
+
+// substWord replaces the identifier `name` in spec source text.
+func substWord(src, name, repl string) string {
+	return regexp.MustCompile(`\b`+regexp.QuoteMeta(name)+`\b`).ReplaceAllString(src, repl)
+}
+
+// appendsExitClauses: what one invocation of a sequence-accumulating closure must establish.
+func appendsExitClauses(ac *AppendsClause, fn *ssa.Function) []*Clause {
+	S := ac.SliceSrc
+	var out []*Clause
+	mk := func(label, src string) {
+		e, err := parseSpec(src)
+		if err != nil {
+			panic(fmt.Sprintf("appends clause: %v in %q", err, src))
+		}
+		out = append(out, &Clause{Label: label, Src: src, E: e, Props: ac.Props, Line: ac.Line})
+	}
+	mk("appends-one", fmt.Sprintf("len(%s) == old(len(%s)) + 1", S, S))
+	mk("appends-prefix", fmt.Sprintf("forall ap_j int :: 0 <= ap_j && ap_j < old(len(%s)) ==> %s[ap_j] == old(%s[ap_j])", S, S, S))
+	mk("appends-fact", substWord(ac.FactSrc, ac.Var, fmt.Sprintf("(%s[old(len(%s))])", S, S)))
+	// stability: what earlier invocations established for earlier elements survives this invocation
+	fact := substWord(ac.FactSrc, ac.Var, fmt.Sprintf("(%s[ap_k])", S))
+	qv := "ap_k int"
+	for _, prm := range fn.Params {
+		ty := map[Sort]string{SInt: "int", SBool: "bool", SStr: "str", SF64: "f64", SVal: "val"}[sortOf(prm.Type())]
+		fact = substWord(fact, prm.Name(), "st_"+prm.Name())
+		qv += ", st_" + prm.Name() + " " + ty
+	}
+	mk("appends-stable", fmt.Sprintf("forall %s :: 0 <= ap_k && ap_k < old(len(%s)) && old(%s) ==> %s", qv, S, fact, fact))
+	return out
 }
